@@ -108,7 +108,7 @@ func (f *Frame) applyCall(v ssa.Value, c *ssa.CallCommon, callee *ssa.Function, 
 		ext := u.W.externContract(callee)
 		if ext != nil {
 			ext.Used = true
-			f.callByContract(v, in, sig, callee, ext, what, args, st, tr)
+			f.callByContract(v, in, sig, callee, ext, what, args, st, u.W.traceFor(u, callee, c, ext))
 			return
 		}
 		if callee != nil {
